@@ -73,6 +73,32 @@ def _add_check(n, k, newer=False):
     return None
 
 
+def _multi_check(n, m, k):
+    """n stored 1m candles; a batch of m whose first m-k minutes are the last m-k stored ones (k new minutes at the end;
+    k == 0: a pure repeat, k == m: all new)"""
+    store, ts0, step = _store(0, '1m')
+
+    def mk(j, base=10.0):
+        return [ts0 + j * 60000, base + j, base + 1 + j, base + 2 + j, base - 1 + j, 1.0]
+    if n:
+        store.candles.add_multiple_1m_candles(np.array([mk(j) for j in range(n)], dtype=float), 'Sandbox', 'BTC-USDT')
+    first = n - (m - k)
+    batch = np.array([mk(j, 500.0) for j in range(first, first + m)], dtype=float)
+    before = store.candles.get_storage('Sandbox', 'BTC-USDT', '1m')[:].copy() if n else np.zeros((0, 6))
+    what = f'{n} stored minutes, batch of minutes {first}..{first + m - 1} ({m - k} stored, {k} new)'
+    try:
+        store.candles.add_multiple_1m_candles(batch, 'Sandbox', 'BTC-USDT')
+    except Exception as ex:
+        return f'{what}: raised {type(ex).__name__}: {ex}'
+    after = store.candles.get_storage('Sandbox', 'BTC-USDT', '1m')[:]
+    want = np.vstack([before[:first], batch])
+    if after.shape != want.shape or not np.array_equal(after, want):
+        return (f'{what}: the store holds minutes {[int((r[0] - ts0) // 60000) for r in after]} '
+                f'but replacing the stored and appending the new minutes gives {[int((r[0] - ts0) // 60000) for r in want]}'
+                if after.shape != want.shape else f'{what}: stored rows differ from the batch')
+    return None
+
+
 def replay(pl):
     ob = pl['obligation']
     rng = random.Random(pl.get('seed', 0))
@@ -113,6 +139,18 @@ def replay(pl):
             if d:
                 return {'confirmed': True, 'detail': d}
         return {'confirmed': False, 'detail': 'real add_candle appends / replaces as specified for store sizes 1..45 and every probed row'}
+    if ob.startswith('add_multiple'):
+        for n in (0, 3, 5, 8, 20, 21, 40):
+            for m in (1, 2, 3, 5, 7):
+                for k in range(0, m + 1):
+                    if k < m and (m - k > n or m > n):
+                        continue
+                    if k == m and n and False:
+                        continue
+                    d = _multi_check(n, m, k)
+                    if d:
+                        return {'confirmed': True, 'detail': d}
+        return {'confirmed': False, 'detail': 'real add_multiple_1m_candles appends / replaces as specified on the probed stores'}
     if ob.startswith('spacing'):
         from jesse import research
         from jesse.strategies import Strategy
